@@ -254,7 +254,7 @@ int main(int argc, char **argv) {
             int nul = open("/dev/null", O_WRONLY);
             if (nul >= 0) dup2(nul, 2);           /* the parser reports errors on stderr */
             for (size_t i = k; i < n; i++) {
-                alarm(10);
+                hc_alarm(10);
                 do_case(cases[i]);
                 ob_put("\n", 1);
                 fputs(ob, stdout); fflush(stdout);
